@@ -203,13 +203,22 @@ def parse_tlc(out):
                 j += 1
             blk = []
             while j < len(lines) and not lines[j].startswith("Error:") and not lines[j].startswith("Finished") \
-                    and not lines[j].startswith("Model checking") and not lines[j].startswith("Progress(") and len(blk) < 3000:
+                    and not lines[j].startswith("Model checking") and not lines[j].startswith("Progress(") and len(blk) < 400000:
                 blk.append(lines[j])
                 j += 1
             txt = "\n".join(blk)
             # the last state of the behaviour wins
-            for vm in re.finditer(r"^(?:/\\ )?(\w+) = (.*)$", txt, re.M):
-                vars_[vm.group(1)] = vm.group(2)
+            # (a long value is printed over several lines: continuation lines are joined to their variable)
+            cur = None
+            for bl in blk:
+                vm = re.match(r"^(?:/\\ )?(\w+) = (.*)$", bl)
+                if vm and (bl.startswith("/\\ ") or not bl.startswith(" ")):
+                    cur = vm.group(1)
+                    vars_[cur] = vm.group(2)
+                elif re.match(r"^State \d+:|^\d+: ", bl) or not bl.strip():
+                    cur = None
+                elif cur is not None:
+                    vars_[cur] += " " + bl.strip()
             r.violations.append((name, vars_, txt[-4000:]))
             i = j
             continue
